@@ -698,7 +698,7 @@ impl Prop for C19P {
     }
     fn plan(&self, tier: Tier, _seed: u64) -> Plan {
         let mut p = Plan::new(
-            vec![sec("explicit-programs", tier.pick(10_000, 60_000)), sec("inferred-programs", tier.pick(4_000, 25_000))],
+            vec![sec("explicit-programs", tier.pick(20_000, 60_000)), sec("inferred-programs", tier.pick(8_000, 25_000))],
             "generated programs x 10 sequences of 1-5 rewrites drawn from: consistent renaming of all binders, redundant parentheses, an unused definition (named, or bound to `_`) in front, at a site or directly after any definition of any group (a literal or a function), turning the body of a group into its last definition, naming a subexpression in place, wrapping in an immediately applied annotated identity function (at the root with the program's type, at int/bool sites), wrapping in `if true then .. else ..` with an other branch that may divide by zero, swapping adjacent function definitions, hoisting closed division-free literal arithmetic into an enclosing definition, giving a function type that occurs below a definition a name in that definition's own group; acceptance and printed value of original and rewritten program must agree (functions by head and implicit flag); non-trivial = distinct rewritten program",
         );
         p.assumptions = vec![
